@@ -123,6 +123,16 @@ def r_candidate_key(rep, prog):
         fields = {x[1].rsplit("::", 1)[-1] for x in T.walk(k0[2][1]) if x[0] == "call" and x[1].startswith("llfree::trees::Tree::")}
         rep.check(len(idxs) == 1 and {"class", "free"} <= fields, rule, "search_best|rated-tree",
                   "rate is given class() and free() of one loaded entry", "rate(..) is not given class/free of one entry: " + T.show(k0[2][1])[:160], t["span"])
+        # tie-break component (if any): the rated tree is entirely free
+        if key[0] == "agg" and key[1] == "tuple" and len(key[2]) == 2:
+            k1 = T.canon(key[2][1])
+            TF = prog.crate("llfree").const("llfree::TREE_FRAMES")
+            good = (k1[0] == "bin" and k1[1] == "Eq" and ("c", TF) in (k1[2], k1[3]) and any(
+                x[0] == "call" and x[1] == "llfree::trees::Tree::free" for x in (k1[2], k1[3]))
+                and {T.canon(x[2]) for x in T.walk(key[2][1]) if x[0] == "idx"} == idxs)
+            rep.check(good, rule, "search_best|tie-break", "equal ratings are ordered by `tree.free() == TREE_FRAMES` of the rated tree",
+                      "the tie-break component of the key is %s, not `tree.free() == TREE_FRAMES` of the rated tree: among equally "
+                      "rated candidates the entirely free trees are no longer preferred" % T.show(key[2][1])[:120], t["span"])
         vi = T.canon(val[2][0]) if val[0] == "agg" and val[2] else T.canon(val)
         rep.check(len(idxs) == 1 and vi in idxs, rule, "search_best|value-is-rated-tree", "the cached tree id is the index of the rated entry",
                   "the cached tree id %s is not the index of the entry that was rated" % T.show(val)[:120], t["span"])
